@@ -213,10 +213,18 @@ def eval_wsvg(rep, case, paths, stats):
                 for k, v in a.items():
                     if k == 'd':
                         continue
-                    if at[i].get(k) != v:
+                    want = v
+                    if rd == 'sax' and 'style' in a:
+                        # SaxDocument returns COMPUTED values: a declaration of the element's style attribute
+                        # takes precedence over the presentation attribute of the same name (CSS cascade,
+                        # SVG 1.1 6.4; theorem C18_sax_style_precedence) - the last declaration wins
+                        for decl in a['style'].split(';'):
+                            if ':' in decl and decl.split(':')[0] == k:
+                                want = decl.split(':')[1]
+                                stats['sax_style_precedence_seen'] = stats.get('sax_style_precedence_seen', 0) + 1
+                    if at[i].get(k) != want:
                         key = 'attr-%s' % rd
-                        if rd == 'sax' and 'style' in a and k in [x.split(':')[0] for x in a['style'].split(';')]:
-                            key = 'sax-style-overrides-attribute'
+                        v = want
                         rep.violation('C18: %s: attribute %r of path %d comes back as %r, supplied %r'
                                       % (rd, k, i, at[i].get(k), v),
                                       dict(base, reader=rd, index=i, attribute=k, got=at[i].get(k)), key=key)
